@@ -20,14 +20,17 @@ import (
 
 type faultCase struct {
 	pipeCase
-	Fault string `json:"fault"` // error | defer | syntax | kill
+	Fault string `json:"fault"` // error | defer | syntax | panic | kill | defer-panic | defer-kill
 	At    string `json:"at"`    // gen@pkgpath@type
 	next  *POut
 }
 
+func (c *faultCase) kills() bool  { return c.Fault == "kill" || c.Fault == "defer-kill" }
+func (c *faultCase) panics() bool { return c.Fault == "panic" || c.Fault == "defer-panic" }
+
 func (c *faultCase) outcome() *POut {
 	if c.out == nil {
-		if c.Fault == "kill" {
+		if c.kills() {
 			c.out, c.next = runKillScenario(&c.S)
 		} else {
 			c.out = runScenarios([]*PScn{&c.S}, 1)[0]
@@ -38,14 +41,14 @@ func (c *faultCase) outcome() *POut {
 
 func (c *faultCase) Run() string {
 	o := c.outcome()
-	if c.Fault == "kill" {
+	if c.kills() {
 		return "result=" + o.Result + " sum=" + o.Sum
 	}
 	return c.S.canonImpl(o)
 }
 
 func (c *faultCase) Line() string {
-	if c.Fault == "kill" || c.Fault == "panic" {
+	if c.kills() || c.panics() {
 		return ""
 	}
 	c.pipeCase.out = c.outcome()
@@ -56,7 +59,7 @@ func (c *faultCase) CanonModel(m string) string { return c.S.canonModel(c.outcom
 
 func (c *faultCase) Oracle(out string) string {
 	o := c.outcome()
-	if c.Fault == "kill" {
+	if c.kills() {
 		if o.Result != "killed" {
 			return "" // the kill point was not reached in this scenario (package cached or type not dispatched)
 		}
@@ -65,7 +68,7 @@ func (c *faultCase) Oracle(out string) string {
 			prev = hx(o.PrevSum)
 		}
 		if o.Sum != prev {
-			return "the process died inside GenerateType and gengo.sum was rewritten"
+			return "the process died inside " + map[bool]string{false: "GenerateType", true: "a deferred callback"}[c.Fault == "defer-kill"] + " and gengo.sum was rewritten"
 		}
 		if c.next != nil && c.S.All && c.next.Result == "ok" {
 			// the next run must not trust the half-done work: the package in which the process died is generated again
@@ -82,7 +85,7 @@ func (c *faultCase) Oracle(out string) string {
 		}
 		return ""
 	}
-	if c.Fault == "panic" {
+	if c.panics() {
 		if !strings.HasPrefix(o.Result, "panic:") {
 			if o.Result == "ok" {
 				return "" // not reached
@@ -138,7 +141,7 @@ func faultBatch(cases []Case) []string {
 	var idx []int
 	for i, c := range cases {
 		fc := c.(*faultCase)
-		if fc.Fault != "kill" {
+		if !fc.kills() {
 			scns = append(scns, &fc.S)
 			idx = append(idx, i)
 		}
@@ -153,7 +156,7 @@ func faultBatch(cases []Case) []string {
 	n := 0
 	for _, c := range cases {
 		fc := c.(*faultCase)
-		if fc.Fault == "kill" {
+		if fc.kills() {
 			n++
 			go func() {
 				sem <- struct{}{}
@@ -185,7 +188,7 @@ func faultVariants(base PScn, yield func(*faultCase)) {
 		for _, g := range base.Gens {
 			for _, call := range base.expectedCalls(pi, g) {
 				key := strings.TrimSuffix(call, "!")
-				for _, f := range []struct{ fault, code string }{{"error", "fv-"}, {"defer", "ove"}, {"syntax", "ox-"}, {"panic", "pv-"}, {"kill", ""}} {
+				for _, f := range []struct{ fault, code string }{{"error", "fv-"}, {"defer", "ove"}, {"syntax", "ox-"}, {"panic", "pv-"}, {"kill", ""}, {"defer-panic", "ovq"}, {"defer-kill", "ovk"}} {
 					n := cloneScn(base)
 					if f.fault == "kill" {
 						n.Kill = key
@@ -940,7 +943,7 @@ func init() {
 				}
 			},
 			BatchRun: faultBatch, ShrinkBudget: 60, MaxShrinks: 4,
-			Rule: "fault enumeration: for each of 30 (quick) / 300 (thorough) fault-free base scenarios (≤ 3 packages, pre-existing outputs, previous gengo.sum variants, All mostly on) one variant per enabled GenerateType/GenerateAliasType call and per fault kind {generator error, failing deferred callback, unparseable rendering, run-time panic in the generator, os.Exit inside the call}; compared with the model: result, files, sum; oracle: error names generator+package or the syntax position, the failing generator's previous file byte-identical, gengo.sum byte-identical, and after a process death the next run regenerates the package",
+			Rule: "fault enumeration: for each of 30 (quick) / 300 (thorough) fault-free base scenarios (≤ 3 packages, pre-existing outputs, previous gengo.sum variants, All mostly on) one variant per enabled GenerateType/GenerateAliasType call and per fault kind {generator error, failing deferred callback, unparseable rendering, run-time panic in the generator, os.Exit inside the call, run-time panic inside a deferred callback, os.Exit inside a deferred callback}; compared with the model: result, files, sum; oracle: error names generator+package or the syntax position, the failing generator's previous file byte-identical, gengo.sum byte-identical, and after a process death the next run regenerates the package",
 		},
 	}})
 	register(&Property{ID: "C05", Streams: []*Stream{
